@@ -90,9 +90,22 @@ SIM_SCENARIO(scen_c15, "c15", "C15", 6000000, 30000) {
         auto msgs = split_msgs(n, threads, true);
         std::vector<std::function<void()>> fns;
         for (auto& v : msgs) fns.push_back([&pq, &v] { for (int m : v) { sim::upoint(); bool ok = pq.try_put(m); SIM_CHECK(ok, "oracle:unexpected-reject", "priority_queue_node rejected a put"); } });
+        // consumers that take items WHILE the putters push (try_get, or try_reserve followed by try_release / try_consume): pushes
+        // and pops meet in one batch of the node's aggregator; whatever they take, the items that stay must still come out
+        // highest first afterwards, and every item exactly once
+        std::vector<int> taken;
+        int ngetters = (int)sim::draw(3, "getters");
+        for (int gt = 0; gt < ngetters; ++gt) fns.push_back([&, gt] {
+            for (int k = 0; k < 2 + n / 3; ++k) {
+                sim::upoint(); int x = -1;
+                if ((k + gt) % 3 == 0) { if (pq.try_get(x)) taken.push_back(x); }
+                else if (pq.try_reserve(x)) { for (int i = 0; i < 2; ++i) sim::upoint(); if ((k + gt) % 3 == 1) pq.try_release(); else { pq.try_consume(); taken.push_back(x); } }
+            }
+        });
         hx::run_fibers(fns);
         g.wait_for_all();
         for (int i = 0; i < n; ++i) buffered.insert(i);
+        for (int x : taken) { auto it = buffered.find(x); SIM_CHECK(it != buffered.end(), "oracle:message-twice", "priority_queue_node handed item %d out twice (or invented it)", x); buffered.erase(it); ++pulled; }
         int v;
         while (pq.try_get(v)) { SIM_CHECK(!buffered.empty() && v == *buffered.rbegin(), "oracle:priority", "priority_queue_node handed over %d while %d is buffered", v, buffered.empty() ? -1 : *buffered.rbegin()); buffered.erase(buffered.find(v)); ++pulled; }
         SIM_CHECK(pulled == n && buffered.empty(), "oracle:message-lost", "priority_queue_node delivered %d of %d", pulled, n);
